@@ -97,6 +97,15 @@ pub trait SVDDecomposableMatrix<T: RealNumber>: BaseMatrix<T> {
         let mut w = vec![T::zero(); n];
         let mut rv1 = vec![T::zero(); n];
 
+        // a (sub)column or (sub)row counts as zero relative to the size of the input, not absolutely
+        let mut tiny = T::zero();
+        for i in 0..m {
+            for j in 0..n {
+                tiny = tiny.max(U.get(i, j).abs());
+            }
+        }
+        tiny = tiny * T::epsilon();
+
         for i in 0..n {
             l = i + 2;
             rv1[i] = scale * g;
@@ -109,7 +118,11 @@ pub trait SVDDecomposableMatrix<T: RealNumber>: BaseMatrix<T> {
                     scale += U.get(k, i).abs();
                 }
 
-                if scale.abs() > T::epsilon() {
+                if scale <= tiny {
+                    for k in i..m {
+                        U.set(k, i, T::zero());
+                    }
+                } else {
                     for k in i..m {
                         U.div_element_mut(k, i, scale);
                         s += U.get(k, i) * U.get(k, i);
@@ -145,7 +158,11 @@ pub trait SVDDecomposableMatrix<T: RealNumber>: BaseMatrix<T> {
                     scale += U.get(i, k).abs();
                 }
 
-                if scale.abs() > T::epsilon() {
+                if scale <= tiny {
+                    for k in l - 1..n {
+                        U.set(i, k, T::zero());
+                    }
+                } else {
                     for k in l - 1..n {
                         U.div_element_mut(i, k, scale);
                         s += U.get(i, k) * U.get(i, k);
@@ -213,7 +230,7 @@ pub trait SVDDecomposableMatrix<T: RealNumber>: BaseMatrix<T> {
                 U.set(i, j, T::zero());
             }
 
-            if g.abs() > T::epsilon() {
+            if g != T::zero() {
                 g = T::one() / g;
                 for j in l..n {
                     let mut s = T::zero();
@@ -327,7 +344,7 @@ pub trait SVDDecomposableMatrix<T: RealNumber>: BaseMatrix<T> {
 
                     z = f.hypot(h);
                     w[j] = z;
-                    if z.abs() > T::epsilon() {
+                    if z != T::zero() {
                         z = T::one() / z;
                         c = f * z;
                         s = h * z;
